@@ -70,12 +70,14 @@ func (idx *index) insert(ctx context.Context, p pointer, persist bool) error {
 	idx.totalSize.Add(int64(p.size))
 	idx.persistHead = min(idx.persistHead, insertAt)
 
-	idx.mu.Unlock()
 	if !persist {
+		idx.mu.Unlock()
 		return nil
 	}
 
+	// The snapshot is taken under the index lock, as update does.
 	persistPointers := idx.indexPersist.prepare(idx.persistHead)
+	idx.mu.Unlock()
 	return persistPointers()
 }
 
